@@ -352,15 +352,41 @@ def oracle_call(h, i, out, presets):
         return None
     asked = asked_options(h, c, presets)
     t1, t2 = int(c["times"][0]), int(c["times"][1])
-    in_domain = (len(image) % 4 == 0 and 512 <= len(image) < 32768 and packable(sv)
-                 and all(n in sv["fields"] for n in FIXED)
-                 and all(k in sv["fields"] and isinstance(v, int) and value_ok(sv["fields"][k][0], v)
-                         for k, v in asked.items())
-                 and all(value_ok(perl, d) for perl, _, d, _ in sv["fields"].values())
-                 and 0 <= t1 < 2 ** 32 and 0 <= t2 < 2 ** 32)
-    c["_in_domain"] = in_domain
-    if not in_domain:
+    # the call is well-formed: a word-sized image with a configuration area, a struct with an unambiguous
+    # packed form and the three fixed fields, options that name system variables
+    shaped = (len(image) % 4 == 0 and 512 <= len(image) < 32768 and packable(sv)
+              and all(n in sv["fields"] for n in FIXED)
+              and all(k in sv["fields"] and isinstance(v, int) for k, v in asked.items()))
+    if not shaped:
+        c["_in_domain"] = False
         return None
+    # this call's value of every system variable
+    values = dict((n, f[2]) for n, f in sv["fields"].items())
+    values.update(asked)
+    values.update(unix_time=t1, boot_sig=t2, root_chip=1)
+    misfit = sorted(n for n, f in sv["fields"].items() if not value_ok(f[0], values[n]))
+    c["_in_domain"] = not misfit
+    if misfit:
+        # A value that its field cannot hold cannot be carried by the configuration area: the boot may refuse
+        # (the code raises before anything is sent); it must not return normally having sent an image.
+        if o["result"][0] != "ok":
+            return None
+        n = misfit[0]
+        w = KINDS[sv["fields"][n][0]][1]
+        sent = None
+        try:
+            area = b"".join(unswap(bytes.fromhex(d)[18:]) for d in o["datagrams"][1:-1])[384:512]
+            off = sv["fields"][n][1]
+            if off + w <= 128 and len(area) == 128:
+                sent = int.from_bytes(area[off:off + w], "little")
+        except Exception:
+            pass
+        rep = [r[3] for r in o["result"][1]["fields"] if r[0] == n]
+        return ("unrepresentable-option-sent",
+                "boot returned normally after sending %d datagrams although %s=%r does not fit its %d-byte field: "
+                "the configuration area%s cannot hold this call's value, the returned structs report %r"
+                % (len(o["datagrams"]), n, values[n], w,
+                   "" if sent is None else " holds %d there and" % sent, rep[0] if rep else None))
     if o["result"][0] != "ok":
         return ("boot-raised-on-valid-input", "boot raised %s (%s) on a valid image and valid options"
                 % (o["result"][1], o["result"][2]))
@@ -603,6 +629,16 @@ def run(chk, args):
             for j in range(0, 6):
                 second = simple(2, 1028, 11 + j, 1474848100, **(dict(preset_kwargs=j) if j else {}))
                 histories.append(dict(slots=[], calls=[simple(1, 1028, i, 1474848000, preset_kwargs=i), second]))
+        # ... values that do not fit, for every field class lying in the configuration area (one byte, half
+        # word, word): max+1, a wrap-around to a plausible value, large, -1; as keyword and in sv_overrides;
+        # each followed by a boot without options
+        for nm, w in (("hw_ver", 1), ("p2p_sql", 1), ("cpu_clk", 2), ("p2p_dims", 2), ("led0", 4), ("sdram_heap", 4)):
+            for v in ((1 << (8 * w)), (1 << (8 * w)) + 5, (1 << (8 * w)) + 200, 1 << 40, -1):
+                for route in ("kwargs", "overrides"):
+                    opt = dict(kwargs=[[nm, v]]) if route == "kwargs" else dict(overrides=dict(fresh=[[nm, v]]))
+                    c1 = simple(5, 1024, 7, 1474848000, **opt)
+                    c1["tags"] = ["family", "options:does-not-fit"]
+                    histories.append(dict(slots=[], calls=[c1, simple(6, 1024, 7, 1474848000)]))
         # ... and, in the thorough tier, every image size 0, 4, ..., 4200 and every single-field override of
         # the bundled struct at its extreme values
         if chk.tier != "quick":
@@ -724,7 +760,9 @@ def run(chk, args):
         "size, duplicate names, arrays, non-integer kinds, too small, missing fixed field); options: none, presets, "
         "keyword overrides, sv_overrides, both with a shared key, a caller's dictionary reused across calls, a preset "
         "object passed as the dictionary, unknown names, out-of-range values; plus exhaustively every ordered pair "
-        "(preset i, then preset j or no option) and the F4 history; thorough tier adds every image size 0,4,...,4200 "
+        "(preset i, then preset j or no option), values that do not fit their field (max+1, wrap-arounds, 2^40, -1 for "
+        "byte / half-word / word variables of the configuration area, as keyword and in sv_overrides: the boot must "
+        "refuse, never return normally with an image) and the F4 history; thorough tier adds every image size 0,4,...,4200 "
         "and every field of the bundled sv overridden with 0 / max / max+1 / -1 followed by a boot without options; "
         "non-trivial = at least one boot inside "
         "the property's domain succeeded and the history has >= 2 boots or that boot carried options; distinct by "
